@@ -550,7 +550,7 @@ func TestC12_NeoVM(t *testing.T) {
 	ev.Floor("neo:reached-handler", "neo:cases", 0.30)
 	ev.Floor("gen:index-hostile-only", "neo:cases", 0.08)
 	ev.Floor("gen:index-hostile:wrap-pair", "neo:cases", 0.004)
-	harn.Check(t, scaled(1500), 20000, neoProp(r, methods, noCycleEnc, r.known["equal-deep-struct-stack-overflow"]))
+	harn.Check(t, scaled(1200), 20000, neoProp(r, methods, noCycleEnc, r.known["equal-deep-struct-stack-overflow"]))
 }
 
 // neoProp is the property of kind (a).
@@ -638,7 +638,7 @@ func TestC12_Native(t *testing.T) {
 	ev.Floor("native:history-step-ok", "native:history-steps", 0.6)
 	ev.Floor("native:hostile-reached-handler", "native:cases", 0.8)
 	ev.Floor("native:hostile-past-decoding", "native:cases", 0.25)
-	harn.Check(t, scaled(1500), 24000, func(t *rapid.T) {
+	harn.Check(t, scaled(1300), 24000, func(t *rapid.T) {
 		m := newModel()
 		height := uint32(pick(t, []int{1, 100, 500000, 3000000, 3000000}, "height"))
 		hist := genHistory(t, m, height)
